@@ -70,8 +70,9 @@ def witnessTree : Sel :=
 
 theorem witness_parses : parseStmt witnessToks = some witnessTree := by rfl
 theorem witness_prints :
-    printS witnessTree = [.kw .SELECT, .kw .SELECT, .kw .LPAREN, .id "a", .kw .RPAREN, .kw .FROM, .id "t"] := by rfl
-theorem witness_fails : parseStmt (printS witnessTree) = none := by rfl
+    printS witnessTree = [.kw .SELECT, .kw .SELECT, .kw .LPAREN, .id "a", .kw .RPAREN, .kw .FROM, .id "t"] := by
+  decide +kernel
+theorem witness_fails : parseStmt (printS witnessTree) = none := by rw [witness_prints]; rfl
 
 /-- the full-strength statement fails on the current tree (known finding `raw-name-unquoted`) -/
 theorem C30_refuted : ¬ Statement parseStmt printS := by
@@ -85,9 +86,9 @@ theorem C30_refuted : ¬ Statement parseStmt printS := by
 theorem C30_partial : ∀ t, FromParser t → parseStmt (printS t) = some t := roundtrip
 
 /-- the witness is excluded by `FromParser` only because of the unquoted name -/
-example : ¬ FromParser witnessTree := by decide
+example : ¬ FromParser witnessTree := by decide +kernel
 example : rawOK "select" = false ∧ rawOK "count" = true ∧ rawOK "time" = true ∧ rawOK "Time" = false ∧
-    rawOK "a b" = false := by decide
+    rawOK "a b" = false := by decide +kernel
 
 /-! ## Non-vacuity: the hypothesis is met by statements using every extension -/
 
@@ -106,8 +107,8 @@ def ex1 : Sel :=
     [.order (.col "" "" "a") true, .order .null false]
     (some (.val .int false "1")) (some (.val .int false "2"))
 
-example : FromParser ex1 := by decide
-example : parseStmt (printS ex1) = some ex1 := C30_partial ex1 (by decide)
+example : FromParser ex1 := by decide +kernel
+example : parseStmt (printS ex1) = some ex1 := C30_partial ex1 (by decide +kernel)
 
 /-- `with x as (select a from t) select * from f(r => table(x), d => descriptor(x.a), n => -1 + 2 * (3 - b)) q
      left join (select 1 from dual) s using (a)` -/
@@ -123,8 +124,8 @@ def ex2 : Sel :=
         none ["a"]]
       none [] none [] [] none none)
 
-example : FromParser ex2 := by decide
-example : parseStmt (printS ex2) = some ex2 := C30_partial ex2 (by decide)
+example : FromParser ex2 := by decide +kernel
+example : parseStmt (printS ex2) = some ex2 := C30_partial ex2 (by decide +kernel)
 
 /-- precedence matters: `a - (b - c)` keeps its parentheses node, and a tree without it is *not* in the parser's image -/
 example : okE (.bin .minus (.col "" "" "a") (.paren (.bin .minus (.col "" "" "b") (.col "" "" "c")))) = true := by decide
